@@ -371,6 +371,7 @@ func (c *client) setupRequestChan() chan clientRequest {
 				break loop
 			case <-ctxDone: // send cancel request
 				ctxDone = nil
+				vhook("call.ctxdone", c, cr.req.ID)
 
 				rp, err := json.Marshal([]param{{v: reflect.ValueOf(cr.req.ID)}})
 				if err != nil {
@@ -468,6 +469,7 @@ func (c *client) makeOutChan(ctx context.Context, ftyp reflect.Type, valOut int)
 				switch chosen {
 				case 0:
 					ch.Close()
+					vhook("sink.closed", c, "ctx")
 					return
 				case 1:
 					if ok {
@@ -490,6 +492,7 @@ func (c *client) makeOutChan(ctx context.Context, ftyp reflect.Type, valOut int)
 
 				if incoming == nil && buf.Len() == 0 {
 					ch.Close()
+					vhook("sink.closed", c, "drained")
 					return
 				}
 			}
@@ -498,6 +501,7 @@ func (c *client) makeOutChan(ctx context.Context, ftyp reflect.Type, valOut int)
 		return ctx, func(result []byte, ok bool) {
 			if !ok {
 				close(incoming)
+				vhook("sink.close", c)
 				return
 			}
 
@@ -701,6 +705,7 @@ func (fn *rpcFunc) handleRpcCall(args []reflect.Value) (results []reflect.Value)
 			break
 		}
 
+		vhook("call.retry", fn.client, req.ID, attempt)
 		time.Sleep(b.next(attempt))
 	}
 
